@@ -673,10 +673,81 @@ func ruleC01Balance(p *Prog, a *Anchors, r *Report) {
 				return k, true
 			}
 		}
+		// a step helper without an amount (`enter()`, or a wrapper of the step): what its body adds to the counter
+		for _, gb := range c.Common().StaticCallee().Blocks {
+			for _, gi := range gb.Instrs {
+				if gc, isCall := gi.(*ssa.Call); isCall && gc.Common().StaticCallee() != nil && gc.Common().StaticCallee() != c.Common().StaticCallee() && depthStepFunc(p, gc.Common().StaticCallee()) {
+					for _, arg := range gc.Common().Args {
+						if k, isK := constInt(arg); isK {
+							return k, true
+						}
+					}
+				}
+				if st, isSt := gi.(*ssa.Store); isSt {
+					if fa, isFA := st.Addr.(*ssa.FieldAddr); isFA {
+						if add, isAdd := st.Val.(*ssa.BinOp); isAdd && add.Op == token.ADD {
+							if la, _, isL := c01FieldLoad(add.X); isL && la.Field == fa.Field && c01MarkOf(p, fa) == nil {
+								if k, isK := constInt(add.Y); isK && k > 0 {
+									return k, true
+								}
+							}
+						}
+					}
+				}
+			}
+		}
 		return 0, false
 	}
 	// a store `X.f = X.f - v`: the constant part of v
-	decOf := func(in ssa.Instruction) (fa *ssa.FieldAddr, k int64, variable bool, ok bool) {
+	var decOf func(in ssa.Instruction) (fa *ssa.FieldAddr, k int64, variable bool, ok bool)
+	decOf = func(in ssa.Instruction) (fa *ssa.FieldAddr, k int64, variable bool, ok bool) {
+		// a call of a small helper that does the subtraction (`p.leave(n)`): judged with the argument in the place of
+		// the helper's parameter
+		if c, isCall := in.(*ssa.Call); isCall {
+			g := c.Common().StaticCallee()
+			if g == nil || g.Blocks == nil || !p.InPkg(g) || len(g.Blocks) != 1 || len(g.Blocks[0].Instrs) > 8 {
+				return nil, 0, false, false
+			}
+			for _, gi := range g.Blocks[0].Instrs {
+				st, isSt := gi.(*ssa.Store)
+				if !isSt {
+					continue
+				}
+				gfa, isFA := st.Addr.(*ssa.FieldAddr)
+				sub, isSub := st.Val.(*ssa.BinOp)
+				if !isFA || !isSub || sub.Op != token.SUB || !c01AddedSomewhere(p, gfa) {
+					continue
+				}
+				if u, isU := sub.X.(*ssa.UnOp); !isU || u.Op != token.MUL {
+					continue
+				} else if fb, isFB := u.X.(*ssa.FieldAddr); !isFB || fb.Field != gfa.Field || !types.Identical(fb.X.Type(), gfa.X.Type()) {
+					continue
+				}
+				var v ssa.Value = sub.Y
+				if pa, isP := sub.Y.(*ssa.Parameter); isP {
+					for i, gp := range g.Params {
+						if gp == pa && i < len(c.Common().Args) {
+							v = c.Common().Args[i]
+						}
+					}
+				}
+				var walk func(v ssa.Value) bool
+				walk = func(v ssa.Value) bool {
+					if cc, isK := constInt(v); isK {
+						k += cc
+						return true
+					}
+					if bo, isBo := v.(*ssa.BinOp); isBo && bo.Op == token.ADD {
+						return walk(bo.X) && walk(bo.Y)
+					}
+					variable = true
+					return true
+				}
+				walk(v)
+				return gfa, k, variable, true
+			}
+			return nil, 0, false, false
+		}
 		st, isSt := in.(*ssa.Store)
 		if !isSt {
 			return nil, 0, false, false
